@@ -6,6 +6,13 @@
 import Mathlib.Analysis.SpecialFunctions.Log.Basic
 import Mathlib.Analysis.SpecialFunctions.Sqrt
 import Mathlib.Analysis.SpecialFunctions.Exp
+import Mathlib.Analysis.SpecialFunctions.Trigonometric.Basic
+import Mathlib.Analysis.SpecialFunctions.Trigonometric.Inverse
+import Mathlib.Analysis.SpecialFunctions.Trigonometric.Arctan
+import Mathlib.Analysis.SpecialFunctions.Arsinh
+import Mathlib.Analysis.SpecialFunctions.Arcosh
+import Mathlib.Analysis.SpecialFunctions.Artanh
+import Mathlib.Analysis.SpecialFunctions.Pow.Real
 import PV.Scalar
 
 open Classical in
@@ -19,6 +26,21 @@ noncomputable instance instTranscReal : Transc ℝ where
   sqrt := Real.sqrt
   log := Real.log
   exp := Real.exp
+
+noncomputable instance instElemReal : Elem ℝ where
+  sin := Real.sin
+  cos := Real.cos
+  tan := Real.tan
+  sinh := Real.sinh
+  cosh := Real.cosh
+  tanh := Real.tanh
+  arcsin := Real.arcsin
+  arccos := Real.arccos
+  arctan := Real.arctan
+  arcsinh := Real.arsinh
+  arccosh := Real.arcosh
+  arctanh := Real.artanh
+  pow := fun x y => x ^ y
 
 namespace PV.RealS
 
